@@ -100,6 +100,7 @@ ENTRIES = [
     ('tup3_str_mir_u64_sl_own_u8', tupn(STR, mir('u64'), sl(own('u8')))),
     ('sl_tup3_mir_u8_str_opt', sl(tupn(mir('u8'), STR, opt(mir('u16'))))),
     ('tup5_mir_str_own_opt_col', tupn(mir('u8'), STR, own('u16'), opt(STR), col(STR))),
+    ('tup2_cdc_str', tup2(CDC, STR)),
 ]
 
 # FlatStack<R, S> entries: name -> (region expression, index container)
